@@ -105,17 +105,26 @@ class Server:
     def get(self, name: Any) -> bytes | None:
         return self._get(name, bytes)
 
-    def set(self, name: Any, value: Any, exat: Any = None, **kw: Any) -> bool:
+    def set(self, name: Any, value: Any, ex: Any = None, px: Any = None, exat: Any = None, pxat: Any = None, **kw: Any) -> bool:
         if kw:
             raise NotImplementedError(f"SET options {kw}")
         name = _k(name)
         self.kv[name] = _b(value)
         self.exp.pop(name, None)
         self._touch(name)
-        if exat is not None:
+        # expiry options as redis-py encodes them (timedelta -> whole seconds / milliseconds, datetime -> int(timestamp()))
+        if ex is not None:
+            self.exp[name] = self.clock() + float(int(ex.total_seconds()) if hasattr(ex, "total_seconds") else int(ex))
+        elif px is not None:
+            self.exp[name] = self.clock() + (int(px.total_seconds() * 1000) if hasattr(px, "total_seconds") else int(px)) / 1000.0
+        elif exat is not None:
             if hasattr(exat, "timestamp"):
                 exat = int(exat.timestamp())  # redis-py: int(datetime.timestamp())
             self.exp[name] = float(exat)
+        elif pxat is not None:
+            if hasattr(pxat, "timestamp"):
+                pxat = int(pxat.timestamp() * 1000)
+            self.exp[name] = float(pxat) / 1000.0
         return True
 
     # -- hashes
